@@ -354,6 +354,47 @@ def _str_literals(prog, body):
     return out
 
 
+def config_uncut(ctx):
+    """shared with C06 R6.12: the inline configuration reaches the parser uncut"""
+    prog = ctx.prog
+    it = prog.fn("<MarkdownIterator<'_> as Iterator>::next")
+    o = Origins(it)
+    # .. and nothing else: between the info string's configuration component (extract_code_block_start(..).2) and the stored config line the text
+    # passes through the two strips only - no search for a "closing" brace, no slicing, no trimming (the one-liner quotes braces inside values)
+    from ..facts import TRANSPARENT
+    allowed = TRANSPARENT | {"str::strip_prefix", "str::strip_suffix", "Option::and_then", "Option::filter", "Try::branch"}
+    stored = []
+    for bi, blk in enumerate(it.blocks):
+        if blk["cleanup"]:
+            continue
+        for si, st in enumerate(blk["stmts"]):
+            if st["k"] == "assign" and st["rv"]["k"] == "agg" and st["rv"]["agg"] == "tuple":
+                for op_ in st["rv"]["ops"]:
+                    tree = o.operand(op_)
+                    if any(n.kind == "call" and (n.a or "").endswith("extract_code_block_start") for n in tree.walk()):
+                        stored.append((stmt_loc(it, bi, si), tree))
+    cut = []
+    for where_, tree in stored:
+        def walk(n):
+            if n.kind == "call":
+                if (n.a or "").endswith("extract_code_block_start"):
+                    return
+                m = method_name(n.a)
+                if m not in allowed and any(x.kind == "call" and (x.a or "").endswith("extract_code_block_start") for x in n.walk()):
+                    cut.append((where_, m))
+                    return
+                for k in n.kids[:1]:
+                    walk(k)
+                return
+            for k in n.kids:
+                walk(k)
+        walk(tree)
+    ctx.check(bool(stored) and not cut, "config-uncut", stored[0][0] if stored else it.where(),
+              "the stored inline configuration is the info string's `{..}` text minus the outer pair, otherwise uncut (%d store(s))" % len(stored),
+              "the inline configuration is cut by %s before it is stored: the one-liner writes braces inside quoted values (`CLOSE: \"}\"`, wait path `/tmp/x}/ready`), "
+              "a reader that looks for `the closing brace` truncates such a configuration and the document just written by create / --convert no longer parses" % sorted({m for _, m in cut}))
+
+
 def r17_5(ctx):
     prog = ctx.prog
     it = prog.fn("<MarkdownIterator<'_> as Iterator>::next")
@@ -371,6 +412,7 @@ def r17_5(ctx):
                 strips.append((mname(t), c.a.as_char() if c.kind == "const" else None))
     ctx.check(sorted(strips) == [("str::strip_prefix", "{"), ("str::strip_suffix", "}")], "strip-one-pair", it.where(),
               "the fence config loses exactly one `{` .. `}` pair", "fence config strips %s" % sorted(strips))
+    config_uncut(ctx)
     p = prog.impl_fn("MarkdownParser", "Parser", "parse")
     op = Origins(p)
     wraps = []
